@@ -547,7 +547,7 @@ def summarize(case):
 def parts(tier):
     return [
         Part(name="predictor", evaluate=evaluate, strategy=lambda: strategy(tier), summarize=summarize,
-             budget={"quick": 160, "thorough": 2400}, min_nontrivial={"quick": 20, "thorough": 300}),
+             budget={"quick": 160, "thorough": 8000}, min_nontrivial={"quick": 20, "thorough": 1000}),
     ]
 
 
